@@ -233,7 +233,13 @@ def groupnormalization_20_21(node: ir.Node, op):
         bias_expand = op.Expand(bias_reshape_1, expand_sizes)
         bias_reshape_2 = op.Reshape(bias_expand, reshape_2_sizes)
 
-        return op.GroupNormalization(x, scale_reshape_2, bias_reshape_2, num_groups=num_groups)
+        # Keep the other attributes of the node (epsilon, stash_type)
+        attributes: dict[str, float | int] = {"num_groups": num_groups}
+        if (epsilon := node.attributes.get("epsilon")) is not None:
+            attributes["epsilon"] = epsilon.as_float()
+        if (stash_type := node.attributes.get("stash_type")) is not None:
+            attributes["stash_type"] = stash_type.as_int()
+        return op.GroupNormalization(x, scale_reshape_2, bias_reshape_2, **attributes)
     return None
 
 
